@@ -1,5 +1,6 @@
 import NodisVerif.Model.Proto
 import NodisVerif.Proofs.ProtoOrder
+import NodisVerif.Proofs.TxProgReach
 /-
   C07 — multi-key commands are atomic (strict two-phase locking).
 
@@ -225,5 +226,51 @@ example : ((runAll {} (renameTrace.take 20)).bind (step · (.wait 1 "c" 2 .w))).
 
 /-- and releasing "b" before the commit is rejected -/
 example : ((runAll {} (renameTrace.take 19)).bind (step · (.unlock 1 2))).isNone = true := by decide
+
+/-! ## 6. the program level (work package T): strict two-phase locking in the code of tx.go -/
+
+section ProgramLevel
+open NodisVerif.Proofs.TxProg
+
+/-- TRANSFER of `no_early_release`: when the program reports the release of a record on which the thread has a
+    validated hold, the thread is inside `commit` -/
+theorem prog_no_early_release {c c' : TxProg.Cfg} (hr : ProgReachable c) {t : TxProg.Tid} {ch : TxProg.Choice}
+    {r : Rec} {g : Hold} (h : TxProg.step c t ch = some (c', some (.unlock t r)))
+    (hg : g ∈ holdsOf (c.loc t)) (hrid : g.rid = r) (hv : g.valid = true) : committingOf (c.loc t) = true := by
+  obtain ⟨p, _, hst⟩ := hr.strong
+  obtain ⟨p', h1, _⟩ := strong_step hst h
+  have hpc : (c.loc t).pc ≠ .init := by intro hx; simp [holdsOf, hx] at hg
+  have htx := hst.sim.tx_some t hpc
+  have hho := holdOf_of_mem (st := ⟨holdsOf (c.loc t), waitingOf (c.loc t), committingOf (c.loc t)⟩)
+    (hst.sim.nodup t hpc) hg
+  rw [hrid] at hho
+  exact no_early_release h1 htx hho hv
+
+/-- the shrinking phase is closed in the code: after the `commit` event the thread only leaves `commit` through
+    its `end` event, with an empty `lockedMetas` -/
+theorem prog_commit_phase_closed {s s' : TxProg.Shared} {t : TxProg.Tid} {l l' : TxProg.Loc} {ch : TxProg.Choice}
+    {e : Option Ev} (h : TxProg.tstep s t l ch = some (s', l', e)) (hc : commitPc l.pc = true) :
+    commitPc l'.pc = true ∨ (l' = {} ∧ e = some (.fin t)) := commit_phase_closed h hc
+
+/-- … and it acquires nothing new there: the only events are unlock, trylock (the upgrade of a read-held placeholder
+    the commit is about to drop), drop and fin -/
+theorem prog_no_growth_in_commit {s s' : TxProg.Shared} {t : TxProg.Tid} {l l' : TxProg.Loc} {ch : TxProg.Choice}
+    {ev : Ev} (h : TxProg.tstep s t l ch = some (s', l', some ev)) (hc : commitPc l.pc = true) :
+    (∃ r, ev = .unlock t r) ∨ (∃ k r, ev = .trylock t k r) ∨ (∃ k r, ev = .drop t k r) ∨ ev = .fin t :=
+  commit_phase_events h hc
+
+/-- the lock point in the code: when the thread is about to report `commit` (pc c0) every record of
+    `tx.lockedMetas` is validated and its mutex is owned by the thread in the recorded mode, all at once -/
+theorem prog_lock_point {c : TxProg.Cfg} (hr : ProgReachable c) {t : TxProg.Tid} (hpc : (c.loc t).pc = .c0) :
+    ∀ g ∈ (c.loc t).held, g.valid = true ∧ owns (c.sh.mu g.rid) t g.mode := by
+  obtain ⟨p, _, hst⟩ := hr.strong
+  intro g hg
+  exact ⟨(hst.sim.thr t).val g hg, (hst.sim.thr t).own g (by simpa [holdsOf, hpc] using hg)⟩
+
+/-- hypotheses are satisfiable: thread 1 of `schedCreate` at its lock point holds the record it created -/
+example : ((TxProg.run {} (schedCreate.take 22)).1.loc 1).pc = .c0 ∧
+    ((TxProg.run {} (schedCreate.take 22)).1.loc 1).held = [⟨10, "k", .w, true⟩] := by decide
+
+end ProgramLevel
 
 end NodisVerif.C07
